@@ -106,17 +106,40 @@ class _Truncated(Exception):
 
 
 def _build(events, partial):
-    ev = [(e.get("op"), e.get("d") or {}) for e in events]
+    # the reads of node_mapping (hooks/lookup-cid.diff) are taken out of the stream first: they do not change the state, each is
+    # attached to the operation during (or right before) which it happened
+    ev, pos, reads = [], [], []
+    raw = [(e.get("op"), e.get("d") or {}) for e in events]
+    j0 = 0
+    while j0 < len(raw):
+        k0, d0 = raw[j0]
+        if k0 == "lookup_in":
+            if j0 + 1 < len(raw) and raw[j0 + 1][0] == "lookup_out":
+                reads.append((j0, "(BLookup %%s %d %s (Some %d))" % (d0["node"], _os(d0.get("name")), raw[j0 + 1][1]["cid"])))
+                j0 += 2
+            else:
+                reads.append((j0, "(BLookup %%s %d %s None)" % (d0["node"], _os(d0.get("name")))))
+                j0 += 1
+        elif k0 == "lookup_out":
+            raise TraceError("event %d: lookup_out without lookup_in" % j0)
+        elif k0 == "lookup_all":
+            reads.append((j0, "(BLookupAll %%s %d %s)" % (d0["node"], _l([str(c) for c in d0["cids"]]))))
+            j0 += 1
+        else:
+            ev.append((k0, d0))
+            pos.append(j0)
+            j0 += 1
     n = len(ev)
-    out = []
+    groups = []     # (kind, op term, obs list, first event, one past the last event) in positions of `ev`
     kinds = []
     hist = {}
     depth = 0       # open frames
     i = 0
     pending = None
+    cur = [0]
 
     def emit(kind, op, obs):
-        out.append("(%s, %s)" % (op, _l(obs)))
+        groups.append([kind, op, list(obs), cur[0], None])
         kinds.append(kind)
         hist[kind] = hist.get(kind, 0) + 1
 
@@ -163,6 +186,9 @@ def _build(events, partial):
 
     try:
         while i < n:
+            if groups and groups[-1][4] is None:
+                groups[-1][4] = i
+            cur[0] = i
             k, d = ev[i]
             if k == "extern":
                 if "kind" not in d:
@@ -264,11 +290,36 @@ def _build(events, partial):
         pass
     if depth != 0 and not partial:
         raise TraceError("trace ends with %d open relation(s)" % depth)
+    if groups and groups[-1][4] is None:
+        groups[-1][4] = i if pending is None else i - 1
+    # attach the reads: a read in front of a group's `instance` event (or in a group without one) saw the state in front of the
+    # operation; a read behind it (a join filter, lowered after the instance was created and the redirect applied) the state after
+    out = []
+    ri = 0
+    lo = 0
+    for kind, op, obs, a_, b_ in groups:
+        hi = pos[b_] if b_ < n else (len(raw) if not partial else (pos[b_ - 1] + 1 if b_ > 0 else 0))
+        inst = None
+        for x in range(a_, b_):
+            if ev[x][0] == "instance":
+                inst = pos[x]
+        extra = []
+        while ri < len(reads) and reads[ri][0] < hi:
+            p_, t_ = reads[ri]
+            extra.append(t_ % ("true" if inst is not None and p_ > inst else "false"))
+            ri += 1
+        out.append("(%s, %s)" % (op, _l(extra + obs)))
+    if ri < len(reads) and not partial:
+        raise TraceError("%d read(s) of node_mapping after the last operation" % (len(reads) - ri))
     pterm = None
     if pending is not None:
         # which operation it would have been does not matter for `elaborate`: LEndTable
         pterm = "(LEndTable None %s %s)" % pending
     return out, kinds, hist, pterm
+
+
+def has_lookup_hook(events):
+    return any(e.get("op") in ("lookup_in", "lookup_all") for e in events)
 
 
 def lowered_names(events):
